@@ -1,25 +1,55 @@
 mod tl;
+mod utl;
+mod th;
 
-use vh_common::{Args, Coverage, Finding, Json, Report, Tier};
+use std::collections::{BTreeMap, HashSet};
+use std::sync::Arc;
 
-fn rule_for(prop: &str) -> &'static str {
-    match prop {
-        _ => "random TL histories; non-trivial = history contains an event relevant to the property",
+use vh_common::{Args, Coverage, Finding, Json, Report, Violation};
+
+/// Engine-independent view of one executed case.
+pub struct Case {
+    pub violations: Vec<Violation>,
+    pub foreign: usize,
+    pub hash: u64,
+    pub sched: u64,
+    pub states: HashSet<u64>,
+    pub counters: BTreeMap<String, u64>,
+    pub nontrivial: bool,
+    pub events: u64,
+    /// full description (only filled when the case was run with logging on)
+    pub json: Json,
+}
+
+impl From<(tl::run::HistoryOut, Json)> for Case {
+    fn from((o, json): (tl::run::HistoryOut, Json)) -> Case {
+        Case { violations: o.violations, foreign: o.foreign, hash: o.hash, sched: o.sched, states: o.states, counters: o.counters, nontrivial: o.nontrivial, events: o.events, json }
+    }
+}
+impl From<(utl::UOut, Json)> for Case {
+    fn from((o, json): (utl::UOut, Json)) -> Case {
+        Case { violations: o.violations, foreign: o.foreign, hash: o.hash, sched: o.sched, states: o.states, counters: o.counters, nontrivial: o.nontrivial, events: o.events, json }
     }
 }
 
-fn run_tl_random(args: &Args, rep: &mut Report, prop: &'static str, n_hist: u64) {
-    let p = tl::run::profile_for(prop);
+/// Runs `n` cases of a deterministic engine on all cores. `run(rt, idx, log)`.
+pub fn run_cases(
+    args: &Args,
+    rep: &mut Report,
+    engine: &str,
+    sig_prefix: String,
+    n: u64,
+    run: impl Fn(&tokio::runtime::Runtime, u64, bool) -> Case + Send + Sync + 'static,
+) {
     let jobs = args.jobs.max(1);
-    let seed = args.seed;
-    let pp = p.clone();
+    let run = Arc::new(run);
     let outs = vh_common::parallel(jobs, move |wk| {
         let rt = tl::run::new_runtime();
         let mut cov = Coverage::default();
         let mut finds: Vec<Finding> = Vec::new();
         let mut idx = wk as u64;
-        while idx < n_hist {
-            let out = tl::run::run_history(&rt, &pp, seed, idx, false);
+        while idx < n {
+            let out = run(&rt, idx, false);
             cov.evaluations += 1;
             cov.events += out.events;
             let _ = cov.distinct.insert(out.hash);
@@ -32,31 +62,180 @@ fn run_tl_random(args: &Args, rep: &mut Report, prop: &'static str, n_hist: u64)
                 cov.add(k, *v);
             }
             if out.foreign > 0 {
-                cov.bump("histories_stopped_by_oracle_of_other_property");
+                cov.bump("cases_stopped_by_oracle_of_other_property");
             }
-            if !out.violations.is_empty() || (cov.samples.is_empty() && out.nontrivial) {
+            if !out.violations.is_empty() && finds.len() < 4 {
                 // deterministic: run again with the log switched on
-                let full = tl::run::run_history(&rt, &pp, seed, idx, true);
-                if !out.violations.is_empty() {
-                    for v in &full.violations {
-                        finds.push(Finding {
-                            v: v.clone(),
-                            sig: format!("{}/tl/{}", pp.prop, v.oracle),
-                            replay: tl::run::history_json(&pp, seed, idx, &full, 100000),
-                        });
-                        break;
-                    }
+                let full = run(&rt, idx, true);
+                if let Some(v) = full.violations.first() {
+                    finds.push(Finding { v: v.clone(), sig: format!("{}/{}", sig_prefix, v.oracle), replay: full.json });
                 } else {
-                    cov.sample(tl::run::history_json(&pp, seed, idx, &full, 60));
+                    let v = out.violations[0].clone();
+                    finds.push(Finding {
+                        sig: format!("{}/{}", sig_prefix, v.oracle),
+                        v,
+                        replay: Json::obj().with("note", "violation did not reproduce when the case was re-run with logging on").with("index", idx),
+                    });
                 }
+            } else if cov.samples.is_empty() && out.nontrivial {
+                let full = run(&rt, idx, true);
+                cov.sample(full.json);
             }
             idx += jobs as u64;
         }
         (cov, finds)
     });
     for (cov, finds) in outs {
-        rep.engine("tl_random").merge(cov);
+        rep.engine(engine).merge(cov);
         rep.add_findings(finds);
+    }
+}
+
+fn leak(s: &str) -> &'static str {
+    Box::leak(s.to_string().into_boxed_str())
+}
+
+fn tl_random(args: &Args, rep: &mut Report, prop: &'static str, n: u64) {
+    let p = tl::run::profile_for(prop);
+    let seed = args.seed;
+    run_cases(args, rep, "tl_random", format!("{}/tl", prop), n, move |rt, idx, log| {
+        let o = tl::run::run_history(rt, &p, seed, idx, log);
+        let j = if log { tl::run::history_json(&p, seed, idx, &o, if o.violations.is_empty() { 60 } else { 100000 }) } else { Json::Null };
+        (o, j).into()
+    });
+}
+
+fn utl_random(args: &Args, rep: &mut Report, prop: &'static str, n: u64) {
+    let p = utl::uprofile_for(prop);
+    let seed = args.seed;
+    run_cases(args, rep, "utl_random", format!("{}/utl", prop), n, move |rt, idx, log| {
+        let o = utl::run_history(rt, &p, seed, idx, log);
+        let j = if log { utl::history_json(&p, seed, idx, &o, if o.violations.is_empty() { 60 } else { 100000 }) } else { Json::Null };
+        (o, j).into()
+    });
+}
+
+/// One-preemption sweep over the managed pool's schedule points.
+fn th_sweep_managed(args: &Args, rep: &mut Report, prop: &'static str) {
+    use th::managed::*;
+    let mut scenarios: Vec<Scenario> = Vec::new();
+    for st in states() {
+        for a in a_ops(&st) {
+            let pts = discover(prop, st, a);
+            for (point, hit) in pts {
+                for b in b_ops(&st) {
+                    scenarios.push(Scenario { state: st, a, point, hit, b });
+                }
+            }
+        }
+    }
+    let scenarios = Arc::new(scenarios);
+    let n = scenarios.len();
+    let jobs = args.jobs.max(1);
+    let outs = vh_common::parallel(jobs, {
+        let scenarios = scenarios.clone();
+        move |wk| {
+            let mut cov = Coverage::default();
+            let mut finds: Vec<Finding> = Vec::new();
+            let mut i = wk;
+            while i < n {
+                let sc = &scenarios[i];
+                let out = run_sweep(prop, sc);
+                cov.evaluations += 1;
+                cov.events += out.events;
+                let mut h = vh_common::Hasher::default();
+                h.str(&sc.sig());
+                let _ = cov.distinct.insert(h.0);
+                if out.reached {
+                    let _ = cov.nontrivial.insert(h.0);
+                    cov.bump(&format!("window:{}", sc.point));
+                    cov.bump(&format!("racing_op:{:?}", sc.b).split('(').next().unwrap().to_string());
+                } else {
+                    cov.bump("point_not_reached_A_waiting_or_finished");
+                }
+                let _ = cov.schedules.insert(out.trace_hash);
+                let _ = cov.states.insert(out.end_state);
+                if let Some(m) = out.inconclusive {
+                    cov.inconclusive.push(m);
+                }
+                if out.foreign > 0 {
+                    cov.bump("cases_stopped_by_oracle_of_other_property");
+                }
+                if let Some(v) = out.violations.first() {
+                    if finds.len() < 6 {
+                        finds.push(Finding { v: v.clone(), sig: format!("{}/th_sweep/{}/{}", prop, v.oracle, sc.sig()), replay: out.desc.clone() });
+                    }
+                } else if cov.samples.is_empty() && out.reached {
+                    cov.sample(out.desc);
+                }
+                i += jobs;
+            }
+            (cov, finds)
+        }
+    });
+    for (cov, finds) in outs {
+        rep.engine("th_sweep").merge(cov);
+        rep.add_findings(finds);
+    }
+}
+
+fn th_chaos_managed(args: &Args, rep: &mut Report, prop: &'static str, runs: u64) {
+    use th::managed::*;
+    let seed = args.seed;
+    // chaos runs use several threads each: run a few at a time
+    let jobs = (args.jobs / 4).max(1);
+    let outs = vh_common::parallel(jobs, move |wk| {
+        let mut cov = Coverage::default();
+        let mut finds: Vec<Finding> = Vec::new();
+        let mut i = wk as u64;
+        while i < runs {
+            let mut rng = vh_common::Rng::derive(seed, vh_common::fnv1a(prop.as_bytes()) ^ 0x7c, i);
+            let with_limit_ops = matches!(prop, "C06" | "C07" | "C09" | "C11");
+            let cfg = ChaosCfg {
+                threads: rng.range(2, 8) as usize,
+                ops: rng.range(20, 120) as usize,
+                max_size: rng.range(0, 4) as usize,
+                resize: with_limit_ops && prop != "C06" || (prop == "C06" && rng.chance(1, 3)),
+                close: matches!(prop, "C06") || (with_limit_ops && rng.chance(1, 4)),
+                retain_take: prop != "C06" || rng.chance(1, 2),
+                p_fail: *rng.pick(&[0u32, 5, 20, 40]),
+            };
+            let out = run_chaos(prop, cfg, seed.wrapping_mul(7919).wrapping_add(i));
+            cov.evaluations += 1;
+            cov.events += out.events;
+            let _ = cov.distinct.insert(out.trace_hash);
+            if out.nontrivial {
+                let _ = cov.nontrivial.insert(out.trace_hash);
+            }
+            let _ = cov.schedules.insert(out.trace_hash);
+            let _ = cov.states.insert(out.end_state);
+            cov.add("schedule_points_hit", out.points as u64);
+            if out.foreign > 0 {
+                cov.bump("cases_stopped_by_oracle_of_other_property");
+            }
+            if let Some(v) = out.violations.first() {
+                if finds.len() < 4 {
+                    finds.push(Finding { v: v.clone(), sig: format!("{}/th_chaos/{}", prop, v.oracle), replay: out.desc.clone() });
+                }
+            } else if cov.samples.is_empty() && out.nontrivial {
+                cov.sample(out.desc);
+            }
+            i += jobs as u64;
+        }
+        (cov, finds)
+    });
+    for (cov, finds) in outs {
+        rep.engine("th_chaos").merge(cov);
+        rep.add_findings(finds);
+    }
+}
+
+fn rule_for(prop: &str) -> &'static str {
+    match prop {
+        "C01" => "cases = seeded random task-level histories (plus thread-level scenarios); distinct = hash of the full event log; non-trivial = at least one admission happened with the pool one below its limit, after waiting, or with other callers waiting",
+        "C02" => "distinct = hash of the event log; non-trivial = the history had at least one quiescent point with a blocked getter (a caller had to wait) and reached the capacity probe or a failed/abandoned get",
+        "C05" | "C12" => "distinct = hash of the event log; non-trivial = at least one caller was blocked and the pool was full (C05) or closed (C12) at some point",
+        _ => "distinct = hash of the full event log of a case; non-trivial = the case contains at least one event relevant to the property (see DESIGN.md section 4, 'non-trivial rule')",
     }
 }
 
@@ -67,11 +246,40 @@ fn main() {
         replay(&args);
         return;
     }
-    let prop: &'static str = Box::leak(args.prop.clone().into_boxed_str());
-    let mut rep = Report::new(&args, "exploration", rule_for(prop));
-    let n = (args.tier.pick(20_000.0, 400_000.0) * args.scale) as u64;
-    if args.engine_enabled("tl") {
-        run_tl_random(&args, &mut rep, prop, n);
+    let prop: &'static str = leak(&args.prop);
+    let level = match prop {
+        "C03" | "C04" | "C10" => "fault_enumeration",
+        _ => "exploration",
+    };
+    let mut rep = Report::new(&args, level, rule_for(prop));
+    let sc = |q: f64, t: f64| (args.tier.pick(q, t) * args.scale) as u64;
+    match prop {
+        "C05" | "C12" => {
+            if args.engine_enabled("utl") {
+                utl_random(&args, &mut rep, prop, sc(30_000.0, 1_000_000.0));
+            }
+        }
+        "C10" => {
+            if args.engine_enabled("tl") {
+                tl_random(&args, &mut rep, prop, sc(10_000.0, 300_000.0));
+            }
+            if args.engine_enabled("utl") {
+                utl_random(&args, &mut rep, prop, sc(10_000.0, 300_000.0));
+            }
+        }
+        _ => {
+            if args.engine_enabled("tl") {
+                tl_random(&args, &mut rep, prop, sc(20_000.0, 600_000.0));
+            }
+            if matches!(prop, "C01" | "C02" | "C06" | "C07" | "C09" | "C11") {
+                if args.engine_enabled("th_sweep") {
+                    th_sweep_managed(&args, &mut rep, prop);
+                }
+                if args.engine_enabled("th_chaos") {
+                    th_chaos_managed(&args, &mut rep, prop, sc(150.0, 3000.0));
+                }
+            }
+        }
     }
     let code = rep.finish(&args);
     std::process::exit(code);
@@ -82,30 +290,35 @@ fn replay(args: &Args) {
     let txt = std::fs::read_to_string(&path).expect("read replay file");
     let j = vh_common::parse_json(&txt).expect("parse replay file");
     let engine = j.get("engine").and_then(Json::as_str).unwrap_or("");
-    match engine {
+    let prop = j.get("profile_prop").and_then(Json::as_str).unwrap_or("C01").to_string();
+    let seed = j.get("seed").and_then(Json::as_i64).unwrap_or(1) as u64;
+    let idx = j.get("index").and_then(Json::as_i64).unwrap_or(0) as u64;
+    let rt = tl::run::new_runtime();
+    let (log, viols) = match engine {
         "tl" => {
-            let prop = j.get("profile_prop").and_then(Json::as_str).unwrap_or("C01").to_string();
-            let seed = j.get("seed").and_then(Json::as_i64).unwrap_or(1) as u64;
-            let idx = j.get("index").and_then(Json::as_i64).unwrap_or(0) as u64;
             let p = tl::run::profile_for(&prop);
-            let rt = tl::run::new_runtime();
             let out = tl::run::run_history(&rt, &p, seed, idx, true);
-            for l in &out.log {
-                println!("{}", l);
-            }
-            if out.violations.is_empty() {
-                println!("REPLAY: no violation reproduced");
-            } else {
-                for v in &out.violations {
-                    println!("REPLAY: reproduced {} {} :: {}", v.prop, v.oracle, v.msg);
-                }
-                std::process::exit(1);
-            }
+            (out.log, out.violations)
+        }
+        "utl" => {
+            let p = utl::uprofile_for(&prop);
+            let out = utl::run_history(&rt, &p, seed, idx, true);
+            (out.log, out.violations)
         }
         e => {
             eprintln!("unknown engine {:?} in replay file", e);
             std::process::exit(3);
         }
+    };
+    for l in &log {
+        println!("{}", l);
     }
-    let _ = Tier::Quick;
+    if viols.is_empty() {
+        println!("REPLAY: no violation reproduced");
+    } else {
+        for v in &viols {
+            println!("REPLAY: reproduced {} {} :: {}", v.prop, v.oracle, v.msg);
+        }
+        std::process::exit(1);
+    }
 }
